@@ -308,6 +308,8 @@ def ops_strategy():
                   st.sampled_from(["-1", "w", "w+k", "-k"]), sel),
         st.tuples(st.just("bad_step"), sel, sel, st.sampled_from([2, -1, 0, 3])),
         st.tuples(st.just("bad_key"), sel, st.integers(0, len(BAD_KEYS) - 1), st.booleans()),
+        st.tuples(st.just("alike_key"), sel, sel, sel, st.sampled_from(["float", "fraction", "decimal", "complex"]),
+                  st.sampled_from(["hi", "lo", "both", "bit"]), st.booleans()),
         st.tuples(st.just("bad_value"), sel, sel, sel, st.sampled_from(["over", "neg", "type"]),
                   st.integers(0, len(BAD_VALUES) - 1)),
         st.tuples(st.just("bad_new"), st.sampled_from(["bits0", "bits-1", "bitsfloat", "bitsstr", "bitsnone",
@@ -497,6 +499,31 @@ def _interp(ops):
                         f[0:key] = 0
                     expect_raise(fn, FAMILY, f, m, out, where, "key-type")
                     expect_raise(fn2, FAMILY, f, m, out, where, "key-type")
+            elif kind == "alike_key":
+                # indices that compare and hash equal to integers just used legally on a frame of this width
+                import decimal
+                import fractions
+                f, m, _ = pick(op[1])
+                a, b = op[2] % m.w, op[3] % m.w
+                conv = {"float": float, "fraction": fractions.Fraction, "decimal": decimal.Decimal, "complex": complex}[op[4]]
+                _ = f[a:b]
+                f[a:b] = f[a:b]
+                _ = f[a]
+                ka = conv(a) if op[5] in ("hi", "both", "bit") else a
+                kb = conv(b) if op[5] in ("lo", "both") else b
+                if op[5] == "bit":
+                    if op[6]:
+                        expect_raise(lambda: f[ka], FAMILY, f, m, out, where, "look-alike-index")
+                    else:
+                        def fnb():
+                            f[ka] = True
+                        expect_raise(fnb, FAMILY, f, m, out, where, "look-alike-index")
+                elif op[6]:
+                    expect_raise(lambda: f[ka:kb], FAMILY, f, m, out, where, "look-alike-index")
+                else:
+                    def fns():
+                        f[ka:kb] = 0
+                    expect_raise(fns, FAMILY, f, m, out, where, "look-alike-index")
             elif kind == "bad_value":
                 f, m, _ = pick(op[1])
                 a, b = op[2] % m.w, op[3] % m.w
